@@ -7,7 +7,7 @@ DEV = '{"D16b_no_replay"}'
 
 def consts(insts, stop, dev, ops, timeouts='{2,3}', ticks='{1,2}', maxnow=100000, kv='{0,2}', sv='{0,3}', scen='{"base","high"}'):
     return dict(Inst=insts, Timeouts=timeouts, Ticks=ticks, KVals=kv, StepVals=sv, Stop=str(stop), MaxNow=str(maxnow),
-                Scen=scen, Ops=ops, Adapter="TRUE", Compress="FALSE", Dev=dev)
+                Scen=scen, Ops=ops, Adapter="TRUE", Compress="FALSE", Kinds='{}', Creds='{}', Dev=dev)
 
 
 def tear_at(frac=None, nbytes=None, garbage=False):
